@@ -449,6 +449,13 @@ BRIDGE = {
         "theorems": ["send_responses_sim"],
         "props": ["C08", "C09", "C17"],
     },
+    "Rough.Bridge.Tables": {
+        "rs_modules": ["Tag", "Version"],
+        "theorems": ["tag_wire_value_eq", "tag_is_nested_eq", "tag_as_string_eq", "tag_from_wire_wire", "tag_from_wire_ok",
+                     "tag_from_wire_no_panic", "tag_from_wire_eq", "version_wire_bytes_eq", "version_dele_prefix_eq",
+                     "version_sign_prefix_eq", "version_supported_versions_wire_eq"],
+        "props": ["C05", "C10", "C12"],
+    },
     "Rough.Bridge.Merkle": {
         "rs_modules": ["Merkle"],
         "theorems": ["new_eq", "node_len_eq", "hash_leaf_eq", "hash_nodes_eq", "finalize_output_sim", "push_leaf_sim", "reset_eq",
@@ -466,6 +473,7 @@ _BRIDGE_WHAT = {
     "Rough.Bridge.Merkle": "merkle.rs (push_leaf, compute_root, get_paths, root_from_paths, reset)",
     "Rough.Bridge.Client": "roughenough-client.rs (make_request, receive_response, ResponseHandler::new + extract_time with every validate_* step)",
     "Rough.Bridge.Keys": "online.rs / longterm.rs / responder.rs (make_dele, make_cert, classic_midp, rfc_midp, make_srep, make_response, add_*_request, reset)",
+    "Rough.Bridge.Tables": "tag.rs / version.rs (wire values, from_wire, is_nested, names, signing contexts, supported-versions list: the tables the other generated modules use through externs)",
     "Rough.Bridge.SendResponses": "responder.rs send_responses (the whole batch loop incl. failing sends, fault injection, lazily evaluated debug! arguments, statistics events)",
 }
 for _pid, _cfg in PROPS.items():
